@@ -153,7 +153,7 @@ def target_of_block(block):
     return None
 
 
-def run_multi(targets, threads, fmt='text', extra=(), gate_order=None, monitors=None, timeout=120, tmo=None, hashseed='0', file_lines=None):
+def run_multi(targets, threads, fmt='text', extra=(), gate_order=None, monitors=None, timeout=120, tmo=None, hashseed='0', file_lines=None, spec=None):
     """targets: [Target].  Returns dict(run=Run, blocks={spec: text}|None, docs={spec: doc}|None, raw_blocks=[...])."""
     d = runner.scratch_dir('multi')
     try:
@@ -174,7 +174,7 @@ def run_multi(targets, threads, fmt='text', extra=(), gate_order=None, monitors=
                     t.peer.gate.set()
             opener = threading.Thread(target=open_gates, daemon=True)
             opener.start()
-        r = runner.run_cli(args, cwd=d, monitors=monitors, timeout=timeout, hashseed=hashseed)
+        r = runner.run_cli(args, cwd=d, monitors=monitors, timeout=timeout, hashseed=hashseed, spec=spec)
         if opener is not None:
             for t in targets:
                 if t.peer is not None:
